@@ -56,7 +56,7 @@ Print Assumptions C07_program_teardown_frees_all.
 (* non-vacuity: a CellLoop closed over a snapshot/hold cycle: 7 objects, all freed after teardown + one collection,
    and not before *)
 Example C07_program_nonvacuous :
-  let prog := [HDef 0 PSink []; HDef 1 PCLoop []; HDef 2 PSnapshot [0; 1]; HDef 3 PHold [2]; HLoop 1 3;
+  let prog := [HDef 0 PSink [] []; HDef 1 PCLoop [] []; HDef 2 PSnapshot [0; 1] []; HDef 3 PHold [2] []; HLoop 1 3;
                HListen 0 2 true] in
   match hrun hinit prog with
   | Ok st =>
